@@ -152,9 +152,21 @@ func checkC12(p *Prog, c *Check) {
 			c.add("R12.4", o.Construct, o.Pos, o.Status, o.Detail)
 		}
 	}
+	c.Rule("R12.5", "adders: every exported Add* method appends what it is given, in order, to what the matching accessor returned before, and a second call keeps the first call's elements (C01 R1.6, re-decided here: the property quantifies over setter and adder calls)")
+	{
+		sub := NewCheck(c.ID, p)
+		checkAdders(p, sub)
+		for _, o := range sub.Obls {
+			if o.Rule == "R1.6" {
+				c.add("R12.5", o.Construct, o.Pos, o.Status, o.Detail)
+			}
+		}
+	}
+	c.Rule("R12.6", "the encoded frame reflects the final state only: for every packet type the encoder's event sequence (wire kinds, identifiers, widths, values) after every setter has been called twice — another value first, then the final one; for CONNECT also a will message replaced by another one and by a minimal one — equals the sequence after the final calls alone (state that no accessor shows, such as the copy of the will payload, cannot survive from the first call)")
+	checkFrameReflectsFinalState(p, c)
 	c.Explanation = "Each setter is a transition function and each accessor a decision function over the receiver's fields; both are evaluated on the SSA form over abstract states (all 256 values of every flag byte the setter reads, zero and all-ones backgrounds for the rest) and abstract arguments (all values of booleans and bytes, boundary values of wider integers, lengths 0/1/2 with an identity tag for strings and slices). Pairing plus frame give last-write-wins for every finite setter sequence by induction."
 	c.Trusted = []string{"go/types + go/ssa (x/tools v0.29.0) faithful IR", "abstract domains as listed; strings and slices are represented by length and identity (their bytes are never inspected by setters/accessors)"}
-	c.NotDecided = []string{"lossless-ness of conversions outside the C01 domain (SetSubscriptionID(int) beyond uint)", "adders (AddUserProp, AddFilters, AddReasonCode, AddSubscriptionID): covered by C01's completeness rule, not by this evaluation", "that the encoded frame reflects the final state (C01 R1.3)"}
+	c.NotDecided = []string{"lossless-ness of conversions outside the C01 domain (SetSubscriptionID(int) beyond uint)", "longer call sequences than the two-call overwrite states (R12.1 + R12.2 give the induction for accessor-visible state; R12.6 covers hidden state on the two-call states)"}
 	iface := p.LookupIface("ControlPacket")
 	var typesToCheck []*types.Named
 	for _, nt := range p.NamedTypes() {
@@ -536,3 +548,94 @@ func constantInt(cn *types.Const) (int64, bool) {
 }
 
 var _ = ssa.Value(nil)
+
+// checkFrameReflectsFinalState (R12.6).
+func checkFrameReflectsFinalState(p *Prog, c *Check) {
+	norm := func(evs []layoutEvent) []string {
+		var out []string
+		for _, e := range evs {
+			v := e.Val
+			val := ""
+			switch v.k {
+			case 'i':
+				val = fmt.Sprint(v.i)
+			case 'b':
+				val = fmt.Sprint(v.b)
+			case 's':
+				val = fmt.Sprintf("len=%d", v.i)
+				if strings.HasPrefix(v.addr, "val:") || strings.HasPrefix(v.addr, "lit:") {
+					val += " " + v.addr + fmt.Sprintf("+%d", v.off)
+				}
+			}
+			out = append(out, fmt.Sprintf("%s %s(%s) id=%#02x width=%d %s", e.Op, e.Wire, e.Kind, e.ID, e.Width, val))
+		}
+		return out
+	}
+	n := 0
+	for _, tn := range packetTypeNames() {
+		fill := p.Method(tn, "fill")
+		if fill == nil {
+			continue
+		}
+		specs := p.stateSpecs(tn)
+		byName := map[string]stateSpec{}
+		for _, sp := range specs {
+			byName[sp.name] = sp
+		}
+		bad, unk := "", ""
+		pairs := 0
+		for _, sp := range specs {
+			if !strings.HasPrefix(sp.name, "all, each setter called twice (other value first)") {
+				continue
+			}
+			ref, ok := byName["all"+strings.TrimPrefix(sp.name, "all, each setter called twice (other value first)")]
+			if !ok {
+				continue
+			}
+			build := func(s stateSpec) ([]string, string) {
+				var wp *packetState
+				if s.will != 0 {
+					wp, _ = p.willFor(s)
+				}
+				st, why := p.buildStateSpec(tn, s, nil, wp)
+				if st == nil {
+					return nil, why
+				}
+				evs, _, why := p.encoderTrace(st, fill)
+				if why != "" {
+					return nil, why
+				}
+				return norm(evs), ""
+			}
+			a, why1 := build(sp)
+			b, why2 := build(ref)
+			pairs++
+			n++
+			switch {
+			case why1 != "" || why2 != "":
+				unk = "cannot evaluate: " + why1 + why2
+			case len(a) != len(b):
+				bad = fmt.Sprintf("state \"%s\": the encoder emits %d items, after the final calls alone %d", sp.name, len(a), len(b))
+			default:
+				for i := range a {
+					if a[i] != b[i] && bad == "" {
+						bad = fmt.Sprintf("state \"%s\": item %d is [%s]; after the final calls alone it is [%s] — something from the first call survives in the frame", sp.name, i, a[i], b[i])
+					}
+				}
+			}
+		}
+		if pairs == 0 {
+			continue
+		}
+		cons := tn + "#frame-after-overwrite"
+		switch {
+		case unk != "":
+			c.Unk("R12.6", cons, p.Pos(fill.Pos()), unk)
+		case bad != "":
+			c.Bad("R12.6", cons, p.Pos(fill.Pos()), bad)
+		default:
+			c.OK("R12.6", cons, p.Pos(fill.Pos()), fmt.Sprintf("%d overwrite state(s) encode exactly like their final calls alone", pairs))
+		}
+	}
+	c.Measured["overwrite_states_compared"] = n
+}
